@@ -563,7 +563,7 @@ func TestC18(t *testing.T) {
 			}
 		}
 	}
-	rapidCases(h, "overlapping-reads", env.PerShard(env.Pick(800, 20000)), func(rt *rapid.T) overlapCase {
+	rapidCases(h, "overlapping-reads", env.PerShard(env.Pick(800, 60000)), func(rt *rapid.T) overlapCase {
 		return overlapCase{TailReads: rapid.SampledFrom([]int{0, 1, 3, 8, 64}).Draw(rt, "tail"), HoldAfter: rapid.Bool().Draw(rt, "after"),
 			SizeA: rapid.SampledFrom([]int{1, 100, 1000, 8000}).Draw(rt, "a"), SizeB: rapid.SampledFrom([]int{1, 100, 1000, 8000}).Draw(rt, "b"),
 			Conns: rapid.IntRange(1, 2).Draw(rt, "conns")}
@@ -575,7 +575,7 @@ func TestC18(t *testing.T) {
 		}
 		return f
 	})
-	rapidCases(h, "server", env.PerShard(env.Pick(8000, 200000)), genCoCase, func(c coCase) *fail {
+	rapidCases(h, "server", env.PerShard(env.Pick(8000, 600000)), genCoCase, func(c coCase) *fail {
 		st := &coStats{}
 		f := runCoCase(c, st)
 		h.Case(evid.HashJSON(c), st.shorterAfterLonger > 0, fmt.Sprintf("server:conns=%d", c.Conns))
@@ -584,7 +584,7 @@ func TestC18(t *testing.T) {
 		}
 		return f
 	})
-	rapidCases(h, "client", env.PerShard(env.Pick(8000, 200000)), genCoCase, func(c coCase) *fail {
+	rapidCases(h, "client", env.PerShard(env.Pick(8000, 600000)), genCoCase, func(c coCase) *fail {
 		st := &coStats{}
 		f := runCoClientCase(c, st)
 		h.Case(evid.HashJSON(c)^1, st.shorterAfterLonger > 0, "client")
